@@ -422,7 +422,8 @@ func slotPrecedence(e Expression) int     { return 0 }
 //@ func (sl *MultiStringLiteral) WriteTo
 //@   props C01 C03 C06 C08 C15 C14 C07
 //@   use cwFrame writeTo
-//@   ensures [syntax] traceSeq(evLC(sl.Token.LeadingComments), evMap(sl.Token.Start), evRune('`'), evStr(sl.Value), evRune('`'))
+//@   ensures [syntax] traceSeq(evLC(sl.Token.LeadingComments), evMap(sl.Token.Start), evRune('`'), evStr(callResult[string]("strings.ReplaceAll", 0)), evRune('`'))
+//@   ensures [backticks.escaped@C07] ncalls("strings.ReplaceAll") == 1 && callArg[string]("strings.ReplaceAll", 0, 0) == sl.Value && callArg[string]("strings.ReplaceAll", 0, 1) == "`" && callArg[string]("strings.ReplaceAll", 0, 2) == "\\`"
 
 //@ func (le *LetExpression) WriteTo
 //@   props C01 C03 C06 C08 C15 C14
